@@ -29,6 +29,7 @@ type KnownFinding struct {
 	What       string `json:"what"`
 	Status     string `json:"status"` // "known" | "fixed"
 	Commit     string `json:"commit,omitempty"`
+	Pkg        string `json:"pkg,omitempty"` // package directory (relative to the repository); "" = any package of the property
 }
 
 type KnownFindingsFile struct {
@@ -110,6 +111,7 @@ func RunProperty(repo string, cfg *PropertyConfig, kf *KnownFindingsFile, timeou
 		cr.LoadMs += e.LoadMs
 		e.Known = kf
 		e.CurProp = cfg.ID
+		e.CurPkg = pkg
 		for _, ct := range e.ContractList {
 			if !hasProp(ct.Props, cfg.ID) {
 				continue
@@ -308,6 +310,9 @@ func (v *Violation) WriteReplay(dir string) (string, error) {
 		return "", err
 	}
 	name := strings.NewReplacer("/", "_", "(", "", ")", "", "*", "", "#", "-", "$", "_", " ", "_").Replace(v.Obligation)
+	if v.Pkg != "" && v.Pkg != "." {
+		name = filepath.Base(v.Pkg) + "." + name
+	}
 	path := filepath.Join(dir, v.Property+"-"+name+".json")
 	data, err := json.MarshalIndent(v, "", " ")
 	if err != nil {
